@@ -116,7 +116,15 @@ def check_explicit(out, comp, ins, out_names, rng, eps, tag, rtol=1e-6, per_inpu
         solo.p.compute_totals(of=of, wrt=wrt)
         solo.set(x2)
         solo.run()
+        # compute must not write into its input vector (views of inputs modified in place)
+        comp_in = solo.p.model.c._inputs
+        for k in solo.names:
+            if not np.array_equal(np.ravel(comp_in[k]), np.ravel(x2[k])):
+                out.fail("%s:input_modified_in_place/%s" % (cname, k), "[%s] compute changed its input %s" % (tag, k))
         J = solo.p.compute_totals(of=of, wrt=wrt)
+        for k in solo.names:
+            if not np.array_equal(np.ravel(comp_in[k]), np.ravel(x2[k])):
+                out.fail("%s:input_modified_in_place/%s" % (cname, k), "[%s] linearisation changed its input %s" % (tag, k))
         sizes = {o: int(np.size(solo.p.get_val("c." + o))) for o in out_names}
         fmags = {o: float(np.max(np.abs(solo.p.get_val("c." + o)))) if sizes[o] else 0.0 for o in out_names}
 
